@@ -12,7 +12,7 @@ ID = "C14"
 TITLE = "Scale mean, median, standard deviation and error from category numeric values"
 TEMPLATES = ["cat|cat", "cat|cat", "cat|cat_date", "cat_date|cat", "mr|cat", "cat|mr",
              "cai|cac", "cac|cai", "cat", "cat", "cat_date", "cat|cat|cat", "mr|cat|cat",
-             "cat|cai|cac", "logical|cat", "cat|binned"]
+             "cat|cai|cac", "logical|cat", "cat|binned", "cat", "cat_date"]
 MODES = ["random", "random", "median_trap", "no_values", "sparse"]
 RULE = (
     "W1 synthetic surveys over %d templates x {unweighted, integer weights incl. 0, "
@@ -39,7 +39,7 @@ BATCH = 40
 
 
 def units(tier, seed):
-    n = 600 if tier == "quick" else 30000
+    n = 1000 if tier == "quick" else 30000
     return [{"i": i, "seed": seed} for i in range(n)]
 
 
